@@ -429,7 +429,7 @@ func TestVerif_C24(t *testing.T) {
 		kinds := nKinds
 		urlKinds := venum.QT(2, 6)
 		if total >= 4 {
-			kinds, urlKinds = 7, 2
+			kinds, urlKinds = 7, 0 // 4-pair shapes: first seven common kinds only (cost)
 		}
 		var elems []vfC24Elem
 		for i, n := range shape {
